@@ -274,6 +274,51 @@ func c20(c *Ctx) {
 					zero = false
 				}
 				r.Check(zero, "C20.R2", "failure return of "+shortName(holder)+" at "+p.Pos(posOf(ret)), p.Pos(posOf(ret)), "failure returns no region", "a failure return still hands out a region")
+				// exhaustion is reported only when a comparison with a field of the reserve record says "beyond": x > limit
+				// (or x >= limit) held, not its opposite
+				beyond, within := false, false
+				for _, g := range guardsAt(ret.Block()) {
+					bo, ok := g.Cond.(*ssa.BinOp)
+					if !ok {
+						continue
+					}
+					_, _, fx := fieldRef(resolveLocal(bo.X))
+					_, _, fy := fieldRef(resolveLocal(bo.Y))
+					if fx == fy {
+						continue
+					}
+					op := bo.Op
+					if fx { // limit on the left: mirror
+						switch op {
+						case token.LSS:
+							op = token.GTR
+						case token.LEQ:
+							op = token.GEQ
+						case token.GTR:
+							op = token.LSS
+						case token.GEQ:
+							op = token.LEQ
+						}
+					}
+					switch op {
+					case token.GTR, token.GEQ:
+						if g.Pol {
+							beyond = true
+						} else {
+							within = true
+						}
+					case token.LSS, token.LEQ:
+						if g.Pol {
+							within = true
+						} else {
+							beyond = true
+						}
+					}
+				}
+				if beyond || within {
+					r.Check(beyond, "C20.R2", "exhaustion reported only beyond the limit in "+shortName(holder)+" at "+blockOrdinalRet(ret), p.Pos(posOf(ret)), "the failing side of the limit test is 'beyond'",
+						"the reserve allocator reports exhaustion on the side of its limit test where the request still fits (and goes on where it does not): every request is refused while there is room")
+				}
 			}
 		}
 	}
